@@ -390,6 +390,33 @@ def rule_finite_intake(ctx) -> None:
                   "no bound holds for any target; +inf and -inf on one target raise out of fsum")
 
 
+def rule_intake_conversion_total(ctx) -> None:
+    """"for every plan": a magnitude is whatever number the planner wrote - an int beyond the double range (10**400) makes
+    float() raise OverflowError, and the filter then approves nothing at all instead of clamping the target to the novelty cap
+    like an infinity.  The float() conversion of the proposal's magnitude in the merge step sits under a handler that covers
+    OverflowError."""
+    from ..util import enclosing
+    fn = ctx.func(T4 + ":_combine_by_ckey")
+    loop_vars = {y.id for x in walk_no_defs(fn.node) if isinstance(x, ast.For) for y in ast.walk(x.target) if isinstance(y, ast.Name)}
+    convs = [x for x in walk_no_defs(fn.node) if isinstance(x, ast.Call) and isinstance(x.func, ast.Name) and x.func.id == "float" and x.args
+             and any(isinstance(y, ast.Name) and y.id in loop_vars for y in ast.walk(x.args[0]))]
+    ctx.floor("C03.BOUND", "float() conversions of a proposal's magnitude in the merge step", len(convs), 1)
+    for x in convs:
+        ok = False
+        for st, part in enclosing(ctx.prog, fn, x):
+            if isinstance(st, ast.Try) and part == "body":
+                caught = set()
+                for h in st.handlers:
+                    caught |= {"*"} if h.type is None else {src(e).split(".")[-1] for e in (h.type.elts if isinstance(h.type, ast.Tuple) else [h.type])}
+                # the handler must also go on with a value: a bare re-raise / nothing assigned is no handling
+                goes_on = any(not any(isinstance(y, ast.Raise) for st2 in h.body for y in ast.walk(st2)) for h in st.handlers)
+                if caught & {"*", "Exception", "BaseException", "OverflowError", "ArithmeticError"} and goes_on:
+                    ok = True
+        ctx.check(ok, "C03.BOUND", ctx.okey(f"{fn.qual}/magnitude-conversion-total"), fn.loc(x), f"`{src(x)}` is under a handler that covers OverflowError",
+                  f"`{src(x)}` is not under a handler covering OverflowError: a plan with an integer magnitude beyond the double range (10**400) makes the whole filter raise - nothing is approved, "
+                  "nothing is reported - where an infinite magnitude is clamped to the novelty cap")
+
+
 def rule_cooldown_history(ctx) -> None:
     """"none originating from an operation still in cooldown" for every cooldown history: the test `turn - last < cooldown`
     is applied to whatever turn number the history holds.  Admitting only values of one exact type (`isinstance(last, int)`)
@@ -653,11 +680,36 @@ def rule_orderins(ctx) -> None:
     ctx.check(bool(srt), "C03.ORDERINS", f"{fn.qual}/final-sort", fn.loc(), "the approved list is finally sorted by canonical key", "no final canonical sort")
 
 
+def rule_caps_from_the_turns_config(ctx) -> None:
+    """"the configured caps": one turn has one configuration.  run_turn gates the stage on ctx.cfg or ctx.config, object- or
+    dict-shaped (what configs.validate returns); the meta-filter's own accessor must find its caps and cooldowns in the same
+    places - otherwise the stage runs (the gate saw t4.enabled) with its built-in defaults: L2 1.5, novelty 0.3, churn 64 and
+    NO cooldowns, whatever was configured."""
+    from .c04 import _config_holders, holder_shape_gaps
+    core = ctx.func("clematis.engine.orchestrator.core:_get_cfg")
+    want = _config_holders(core, core.params[0])
+    if want != {"cfg", "config"}:
+        raise AnalysisError(f"anchor-vanished: run_turn's config accessor reads {sorted(want)}")
+    fn = ctx.func(T4 + ":_get_cfg")
+    got = _config_holders(fn, fn.params[0])
+    if not got:
+        raise AnalysisError("anchor-vanished: the meta-filter's config accessor reads no ctx holder")
+    ctx.check(not (want - got), "C03.BOUND", f"{fn.qual}/caps-from-every-config-holder", fn.loc(), "the caps are looked up in ctx.config and ctx.cfg, like the gate of the stage",
+              f"the caps are taken from ctx.{'/ctx.'.join(sorted(got))} only while run_turn gates the stage on ctx.{'/ctx.'.join(sorted(want - got))} as well: for such a ctx the filter runs with its "
+              "built-in defaults - configured caps and cooldowns are ignored")
+    gaps = holder_shape_gaps(fn, fn.params[0])
+    ctx.check(not gaps, "C03.BOUND", f"{fn.qual}/caps-from-a-dict-shaped-config", fn.loc(gaps[0][0] if gaps else None), "the t4 section is found in an object-shaped and in a dict-shaped holder alike",
+              (f"`{src(gaps[0][0])[:50]}` finds the `{gaps[0][1]}` section as an attribute only: with the plain dict configs.validate returns as ctx.config the filter silently uses its built-in "
+               "defaults (L2 1.5, novelty 0.3, churn 64, no cooldowns) - more deltas, larger deltas and cooled-down operations are approved than the configuration allows") if gaps else "")
+
+
 def run(ctx) -> None:
+    rule_caps_from_the_turns_config(ctx)
     rule_pure(ctx)
     rule_pipe(ctx)
     rule_bound(ctx)
     rule_finite_intake(ctx)
+    rule_intake_conversion_total(ctx)
     rule_cooldown_history(ctx)
     rule_prov(ctx)
     rule_prov_index(ctx)
